@@ -19,10 +19,13 @@
      SessionExpire b     b's session lease expires: etcd drops its keys AND
                          monitorSession clears owned -- one event (lease-clock
                          assumption, DESIGN 9.2)
-     ReleaseAll b        closed := true, owned cleared, session closed (LeaseRevoke)
+     ReleaseAll b        first step of ReleaseAll: closed := true, owned cleared, m.session
+                         dropped.  Its second step, session.Close() = LeaseRevoke of the
+                         old session lease, is a separate event: OrphanExpire of that lease
+                         (the lease is no manager's session any more)
      Restart b           the broker process is replaced by a fresh manager with the
                          same broker id; its old session lease stays in etcd
-     OrphanExpire l      a lease that is no live manager's session expires
+     OrphanExpire l      a lease that is no live manager's session expires or is revoked
 
    [c_guard = true] is the code with fixes/C18-release-guarded-delete.patch:
    owned maps the resource to the revision of the manager's own write of the key,
@@ -186,8 +189,7 @@ Definition step (cfg : config) (s : state) (ev : event) : state * option ares :=
       end
   | ReleaseAll b =>
       let m := get_mgr s b in
-      (mkState (match m_session m with Some l => revoke e l | None => e end)
-               (set_mgr s b (mkMgr true None [] (m_flights m) (m_rel m))), None)
+      (mkState e (set_mgr s b (mkMgr true None [] (m_flights m) (m_rel m))), None)
   | Restart b => (mkState e (set_mgr s b fresh_mgr), None)
   | OrphanExpire l =>
       if existsb (fun bm => session_is (snd bm) l) (s_mgrs s) then (s, None)
